@@ -108,6 +108,10 @@ impl SeenTracker {
     /// the (type, id) pairs loaders filled / looked up with `get_or_insert` during the last operation (not drained)
     pub fn goi_targets() -> Vec<(String, String)> { seen_log().iter().filter(|s| s.how == "goi").map(|s| (s.ty.clone(), s.id.clone())).collect() }
 
+    /// the (type, id) pairs for which a loader obtained a handle from `get_or_insert` or from a successful nested `load` during
+    /// the last operation (not drained): entries that such calls create are theirs, not the enclosing operation's
+    pub fn loader_obtained() -> Vec<(String, String)> { seen_log().iter().filter(|s| s.how != "cached").map(|s| (s.ty.clone(), s.id.clone())).collect() }
+
     /// To be called after every operation. `line` = the operation; returns the oracle failures (class token first).
     pub fn after_op(&mut self, wx: &WorldExec, line: &str, snap: &BTreeMap<(String, String), (String, usize)>) -> Vec<String> {
         let mut fails = vec![];
@@ -337,7 +341,16 @@ impl WorldExec {
         match w[0] {
             "src.put" if w.len() >= 4 => {
                 let variant = w.get(4).and_then(|v| v.parse::<u8>().ok()).unwrap_or(0);
-                self.src.put(&s(1), &s(2), FileSt::Bytes(unhex(w[3]).into(), variant));
+                let bytes = unhex(w[3]);
+                // ids a script may fill with `get_or_insert` (`@T:id:n`) belong to the observed universe even if no top-level
+                // operation ever names them
+                if s(2) == "s" {
+                    if let Ok(t) = std::str::from_utf8(&bytes) {
+                        let ids: Vec<String> = t.split_whitespace().filter(|k| k.starts_with('@')).filter_map(|k| { let mut it = k[1..].split(':'); it.next()?; it.next().map(|i| i.to_string()) }).collect();
+                        for i in ids { self.note_id(&i); }
+                    }
+                }
+                self.src.put(&s(1), &s(2), FileSt::Bytes(bytes.into(), variant));
                 "ok".into()
             }
             "src.bad" if w.len() == 4 => { self.src.put(&s(1), &s(2), FileSt::Unreadable(w[3].to_string())); "ok".into() }
